@@ -75,7 +75,15 @@ std::pair<Graph<EdgeLabel>, std::vector<std::string>> loadTextEdgeList(
         [](const std::string &s) { return EdgeLabel(); }
 ) {
     return loadTextVertexLabeledEdgeList<Graph, EdgeLabel>(
-        fileName, fromString, [](const std::string &str) { return stoi(str); }
+        fileName, fromString,
+        [](const std::string &str) -> VertexIndex {
+            int index = stoi(str);
+            if (index < 0)
+                throw std::out_of_range(
+                    "Negative vertex index \"" + str + "\"."
+                );
+            return index;
+        }
     );
 }
 
